@@ -2,6 +2,8 @@ import ChipFiring.Model.Txt
 import Mathlib.Data.List.Basic
 import Mathlib.Data.List.TakeWhile
 import Mathlib.Tactic.Linarith
+import Mathlib.Tactic.IntervalCases
+import Std.Data.String.ToInt
 namespace CF.Txt
 
 theorem splitOn_ne_nil (sep : Char) (s : List Char) : splitOn sep s ≠ [] := by
@@ -86,5 +88,147 @@ theorem parse_join (fs : List (List Char)) (hne : fs ≠ [])
       have : ' ' :: (f ++ [',', ' '] ++ joinFields (g :: gs)) = (' ' :: f) ++ ',' :: (' ' :: joinFields (g :: gs)) := by
         simp
       rw [this, splitOn_append ',' (' ' :: f) _ hsp, List.map_cons, strip_space_cons f hf2, ih']
+
+theorem chars_of_repr (k : Int) : ∀ c ∈ k.repr.toList, c.isDigit = true ∨ c = '-' := by
+  intro c hc
+  cases k with
+  | ofNat n =>
+    left
+    have : (Int.ofNat n).repr = Nat.repr n := rfl
+    rw [this, Nat.repr] at hc
+    simp at hc
+    exact Nat.isDigit_of_mem_toDigits (by omega) (by omega) hc
+  | negSucc n =>
+    have : (Int.negSucc n).repr = "-" ++ Nat.repr (n + 1) := rfl
+    rw [this] at hc
+    simp [Nat.repr] at hc
+    rcases hc with rfl | hc
+    · right; rfl
+    · left; exact Nat.isDigit_of_mem_toDigits (by omega) (by omega) hc
+
+def isSpaceNat (v : Nat) : Bool :=
+  (0x09 ≤ v && v ≤ 0x0d) || (0x1c ≤ v && v ≤ 0x20) || v == 0x85 || v == 0xa0 || v == 0x1680 ||
+  (0x2000 ≤ v && v ≤ 0x200a) || v == 0x2028 || v == 0x2029 || v == 0x202f || v == 0x205f || v == 0x3000
+
+theorem isSpacePy_eq (c : Char) : isSpacePy c = isSpaceNat c.val.toNat := rfl
+
+theorem not_space_of_digit_or_minus (c : Char) (h : c.isDigit = true ∨ c = '-') : isSpacePy c = false := by
+  rcases h with h | rfl
+  · simp only [Char.isDigit, Bool.and_eq_true, decide_eq_true_eq] at h
+    obtain ⟨h1, h2⟩ := h
+    have h1' : 48 ≤ c.val.toNat := UInt32.le_iff_toNat_le.mp h1
+    have h2' : c.val.toNat ≤ 57 := UInt32.le_iff_toNat_le.mp h2
+    rw [isSpacePy_eq]
+    generalize c.val.toNat = v at h1' h2'
+    interval_cases v <;> rfl
+  · decide
+
+/-- no character of a list is removable ⇒ `strip()` leaves it alone -/
+theorem strip_fixed_of_no_space (f : List Char) (h : ∀ c ∈ f, isSpacePy c = false) : stripPy f = f := by
+  have dw : ∀ l : List Char, (∀ c ∈ l, isSpacePy c = false) → l.dropWhile isSpacePy = l := by
+    intro l hl
+    cases l with
+    | nil => rfl
+    | cons a as => simp [List.dropWhile_cons, hl a List.mem_cons_self]
+  unfold stripPy
+  rw [dw f h, dw f.reverse (fun c hc => h c (List.mem_reverse.mp hc)), List.reverse_reverse]
+
+/-- the decimal text of an integer is a field the TXT format represents exactly -/
+theorem int_field_clean (k : Int) : cleanField k.repr.toList = true := by
+  have hch := chars_of_repr k
+  unfold cleanField
+  simp only [Bool.and_eq_true, Bool.not_eq_true', beq_iff_eq]
+  constructor
+  · by_contra hc
+    have hmem : ',' ∈ k.repr.toList := List.contains_iff_mem.mp (by simpa using hc)
+    rcases hch ',' hmem with h | h
+    · exact absurd h (by decide)
+    · exact absurd h (by decide)
+  · exact strip_fixed_of_no_space _ (fun c hc => not_space_of_digit_or_minus c (hch c hc))
+
+
+
+/-- **a whole record line** `PREFIX: name₁, …, nameₘ, k` (EDGE / GRAPH_EDGE: two names and the
+    multiplicity; DEGREE / FIRING: one name and the chip count / net firings; ORIENTED: two names):
+    the reader gets back exactly the names and the decimal text of the integer, which parses back
+    to the integer -/
+theorem record_roundtrip (names : List (List Char)) (k : Int)
+    (hclean : ∀ f ∈ names, cleanField f = true) :
+    parseFields (' ' :: joinFields (names ++ [k.repr.toList])) = names ++ [k.repr.toList] ∧
+    k.repr.toInt? = some k := by
+  refine ⟨?_, Int.toInt?_repr k⟩
+  apply parse_join _ (by simp)
+  intro f hf
+  have hc : cleanField f = true := by
+    rcases List.mem_append.mp hf with h | h
+    · exact hclean f h
+    · have : f = k.repr.toList := by simpa using h
+      rw [this]; exact int_field_clean k
+  simp only [cleanField, Bool.and_eq_true, Bool.not_eq_true', beq_iff_eq] at hc
+  refine ⟨fun c hcm he => ?_, hc.2⟩
+  subst he
+  have : f.contains ',' = true := List.contains_iff_mem.mpr hcm
+  simp_all
+
+/-- a pattern containing a character that the text lacks never matches -/
+theorem removeAll_of_not_mem (p s : List Char) (x : Char) (hx : x ∈ p) (hs : x ∉ s) : removeAll p s = s := by
+  induction s with
+  | nil => simp [removeAll]
+  | cons c cs ih =>
+    rw [removeAll]
+    have hnp : ¬ (p ≠ [] ∧ p.isPrefixOf (c :: cs) = true) := by
+      rintro ⟨-, hpre⟩
+      have hpre' : p <+: (c :: cs) := List.isPrefixOf_iff_prefix.mp hpre
+      exact hs (hpre'.subset hx)
+    rw [if_neg hnp, ih (fun h => hs (List.mem_cons_of_mem _ h))]
+
+/-- the reader's `line.replace(PREFIX, "")` on a line that starts with the prefix and whose
+    remainder lacks some character of the prefix (the colon) returns the remainder -/
+theorem removeAll_prefix (p rest : List Char) (hp : p ≠ []) (x : Char) (hx : x ∈ p) (hr : x ∉ rest) :
+    removeAll p (p ++ rest) = rest := by
+  cases hpc : p ++ rest with
+  | nil => simp at hpc; exact absurd hpc.1 hp
+  | cons c cs =>
+    rw [removeAll]
+    have hpre : p.isPrefixOf (c :: cs) = true := by
+      rw [← hpc]; exact List.isPrefixOf_iff_prefix.mpr (List.prefix_append p rest)
+    rw [if_pos ⟨hp, hpre⟩, ← hpc, List.drop_left]
+    exact removeAll_of_not_mem p rest x hx hr
+
+
+
+theorem not_mem_joinFields (x : Char) (hx1 : x ≠ ',') (hx2 : x ≠ ' ') (fs : List (List Char))
+    (h : ∀ f ∈ fs, x ∉ f) : x ∉ joinFields fs := by
+  induction fs with
+  | nil => simp [joinFields]
+  | cons f rest ih =>
+    cases rest with
+    | nil => simpa [joinFields] using h f List.mem_cons_self
+    | cons g gs =>
+      have ih' := ih (fun y hy => h y (List.mem_cons_of_mem _ hy))
+      simp only [joinFields, List.mem_append, List.mem_cons, List.not_mem_nil, or_false, not_or]
+      exact ⟨⟨h f List.mem_cons_self, hx1, hx2⟩, ih'⟩
+
+/-- **a record line of the TXT format**: `PREFIX` (containing a colon) followed by a blank and the
+    comma-separated fields; the reader strips the prefix with `str.replace`, splits at commas and
+    strips each part.  For ≥ 1 clean fields without colons it recovers the fields exactly. -/
+theorem line_roundtrip (P : List Char) (hP : ':' ∈ P) (fs : List (List Char)) (hne : fs ≠ [])
+    (hclean : ∀ f ∈ fs, cleanField f = true) (hcolon : ∀ f ∈ fs, ':' ∉ f) :
+    parseFields (removeAll P (P ++ ' ' :: joinFields fs)) = fs := by
+  have hPne : P ≠ [] := List.ne_nil_of_mem hP
+  have hrest : ':' ∉ (' ' :: joinFields fs) := by
+    intro h
+    rcases List.mem_cons.mp h with h | h
+    · exact absurd h (by decide)
+    · exact not_mem_joinFields ':' (by decide) (by decide) fs hcolon h
+  rw [removeAll_prefix P _ hPne ':' hP hrest]
+  apply parse_join fs hne
+  intro f hf
+  have hc := hclean f hf
+  simp only [cleanField, Bool.and_eq_true, Bool.not_eq_true', beq_iff_eq] at hc
+  refine ⟨fun c hcm he => ?_, hc.2⟩
+  subst he
+  have : f.contains ',' = true := List.contains_iff_mem.mpr hcm
+  simp_all
 
 end CF.Txt
